@@ -6,7 +6,21 @@ COMMON_TB = [
 
 FNGEN = ["tools/fngen/run.sh"]
 
+SCHEMAGEN = ["tools/schemagen/run.sh"]
+
 PROPS = {
+    "C08": {
+        "title": "Codec: lossless round trip, canonical strict decoding, stable IDs",
+        "level": "proof",
+        "generators": SCHEMAGEN,
+        "technique": "Lean 4 proofs about a codec interpreter over a schema table regenerated from the *_codec.go files (go/ast translator schemagen) + differential correspondence model vs all 95 real generated codecs",
+        "design_ref": "DESIGN.md §6 C08",
+        "level_text": "Lean proves for all 64-bit values: varint round trip, canonical (shortest, non-overflowing) form is the only accepted one, injectivity, zig-zag round trip; and re-proves on every run that the schema table regenerated from the current *_codec.go files is well formed (numbers increasing, Encode/Decode/DecodeStrict agree on numbers and kinds, strict flags, no unknown construct). The generic interpreter (Encode / Decode / DecodeStrict incl. nested readers with unchecked end, int64 wrap-around, uint32 truncation, UTF-8) and the Lisk32 functions are tied to the real code by running every registered struct's real Decode / DecodeStrict / Encode and the compiled Lean model on generated valid encodings and structure-aware mutations and diffing verdict (error kind) and re-encoded bytes; model-free oracles check exact round trip of fully populated encodings, strict acceptance of own encodings, canonicity of strictly accepted transactions, transaction-ID = hash of accepted bytes, Lisk32 round trip and single-substitution rejection.",
+        "level_note": "Trusted: Lean kernel; schemagen (tools/schemagen) and the verif-tagged codec registry; the harness generators. NFC normalisation is a parameter of the model (generated strings are ASCII or invalid UTF-8, where it is exact). Message-level round-trip / canonicity theorems for the generic interpreter and the Lisk32 checksum theorem are in progress (see DESIGN.md); until then those clauses rest on the correspondence + oracles.",
+        "rule": "per schema (95 structs): canonical encodings of random values (boundary varints, nested messages to depth 6, 2-byte length prefixes) and 1-2 structure-aware mutations (truncate, bit flip, non-shortest varint, trailing byte, 0x02, huge varint, rotate, delete, dup suffix, high bit), each through lenient and strict decode + re-encode; Lisk32: random/edge 20-byte inputs, mutated texts; non-trivial = a schema batch with successful decodes and at least one error kind; distinct = distinct op sequences",
+        "trusted_base": ["tools/schemagen translator", "NFC (x/text/unicode/norm) is a parameter of the model"],
+        "assumptions": ["strings in generated inputs are ASCII or invalid UTF-8"],
+    },
     "C07": {
         "title": "Header contradiction and fork-choice classification follow LIP-0014",
         "level": "proof",
